@@ -29,9 +29,9 @@ const (
 
 // Mapping kinds of a workflow data dependency.
 const (
-	MapWhole  = iota // the predecessor's whole output (at most one per node)
-	MapToField       // ToField(from): whole output under key <from>
-	MapFields        // MapFields(from, from+"_v"): one key of the predecessor's output
+	MapWhole   = iota // the predecessor's whole output (at most one per node)
+	MapToField        // ToField(from): whole output under key <from>
+	MapFields         // MapFields(from, from+"_v"): one key of the predecessor's output
 )
 
 // Handler kinds.
@@ -52,17 +52,17 @@ const (
 var paradigmNames = []string{"invoke", "stream", "collect", "transform"}
 
 type Node struct {
-	Key    string
-	Kind   int
-	Sub    *Plan
-	Native [4]bool // natively implemented paradigms
-	Cut    int     // chunking parameter
-	Pipe   bool    // streams are produced by a producer task through a Pipe (else array readers)
-	Early  bool    // transform emits a first chunk before reading its input
-	Yields int
-	OutKey string // WithOutputKey
-	Pre    int
-	Post   int
+	Key      string
+	Kind     int
+	Sub      *Plan
+	Native   [4]bool // natively implemented paradigms
+	Cut      int     // chunking parameter
+	Pipe     bool    // streams are produced by a producer task through a Pipe (else array readers)
+	Early    bool    // transform emits a first chunk before reading its input
+	Yields   int
+	OutKey   string // WithOutputKey
+	Pre      int
+	Post     int
 	UseState bool // body calls ProcessState
 	// faults (C13 / C04)
 	FailAt   int // execution index at which the node fails (-1: never)
@@ -90,17 +90,17 @@ type Branch struct {
 }
 
 type Plan struct {
-	Name     string // "" for the top level, the node key for nested plans
-	Prefix   string // key prefix of the nodes of this plan
-	Mode     int
-	Nodes    []*Node
-	Edges    []*Edge
-	Branches []*Branch
-	State    bool
-	MaxSteps int // 0: default
-	Static   map[string]string // workflow static values: node -> value
+	Name                string // "" for the top level, the node key for nested plans
+	Prefix              string // key prefix of the nodes of this plan
+	Mode                int
+	Nodes               []*Node
+	Edges               []*Edge
+	Branches            []*Branch
+	State               bool
+	MaxSteps            int               // 0: default
+	Static              map[string]string // workflow static values: node -> value
 	IntBefore, IntAfter []string
-	Depth    int
+	Depth               int
 }
 
 func (p *Plan) node(k string) *Node {
@@ -122,15 +122,15 @@ func (p *Plan) order() []string {
 
 // GenOpts steers the generator per property profile.
 type GenOpts struct {
-	Modes       []int
-	MaxNodes    int
-	Depth       int
-	Cycles      bool
-	State       int // percent of plans with state
-	Streams     bool // draw native paradigms other than invoke
-	Yields      int
-	Parallelism bool // prefer wide shapes
-	Handlers    bool
+	Modes           []int
+	MaxNodes        int
+	Depth           int
+	Cycles          bool
+	State           int  // percent of plans with state
+	Streams         bool // draw native paradigms other than invoke
+	Yields          int
+	Parallelism     bool // prefer wide shapes
+	Handlers        bool
 	AllowDupKeys    bool // do not remove fan-ins whose sources carry equal map keys
 	AllowMissingKey bool // nested workflows may map a key their input lacks
 	ForceLoop       bool // Pregel: guarantee a cycle that the branch scripts keep taking
@@ -182,7 +182,8 @@ func (g *gen) plan(name, prefix string, mode, depth int, stateAvail bool) *Plan 
 		if nd.Kind == KLambda {
 			g.lambda(nd)
 		}
-		if p.State && g.o.Handlers && nd.Kind != KSub {
+		if p.State && g.o.Handlers {
+			// (a nested graph node takes state handlers like any other node)
 			if t.PlanBool(35) {
 				nd.Pre = 1 + t.Plan(2)
 			}
